@@ -8,8 +8,8 @@ from vmon.core import bit_equal
 
 PROPERTY = 'C03'
 LEVEL = 'exploration'
-RULE = ('Exhaustive box over (N, batch_size, buckets) [quick: N<=12,B<=14,k<=4; thorough: N<=24,B<=26,k<=6] plus seeded '
-        'random larger points (N<=300,B<=130,k<=9); every point runs batch(), batch(drop_remainder) and padded_batch() '
+RULE = ('Exhaustive box over (N, batch_size, buckets) [quick: N<=16,B<=18,k<=5; thorough: N<=40,B<=44,k<=7] plus seeded '
+        'random larger points (N<=300,B<=130,k<=9; quick 400, thorough 20000 points); every point runs batch(), batch(drop_remainder) and padded_batch() '
         'with a random feature set and preprocessor chain. Non-trivial: N%B!=0 with buckets>=2, or N==0, or N a '
         'multiple of B; distinct by (N,B,buckets,feature names,chain).')
 ASSUMPTIONS = [
@@ -306,11 +306,11 @@ def run(ctx):
   from fedjax.core import client_datasets as cd
   ContractBroken = install_contracts(ctx, cd)
   if ctx.quick:
-    box = itertools.product(range(0, 13), range(1, 15), range(1, 5))
-    nrand = 150
+    box = itertools.product(range(0, 17), range(1, 19), range(1, 6))
+    nrand = 400
   else:
-    box = itertools.product(range(0, 25), range(1, 27), range(1, 7))
-    nrand = 3000
+    box = itertools.product(range(0, 41), range(1, 45), range(1, 8))
+    nrand = 20000
   for cid, (n, b, k) in ctx.enum('box', box):
     check_point(ctx, fedjax, cd, ctx.rng('box', n, b, k), n, b, k, ContractBroken)
   for cid, rng in ctx.cases('rand', nrand):
